@@ -34,10 +34,10 @@ CHECKS.update({
     "C02": {"technique": "TLC lemma (EditLemma: cost of any valid script >= Levenshtein) + TLA+ spec V2Score (diffRange / scoreDiffs as built) model-checked and replayed script by script into the real functions + per-call validation of the library's edit script recorded through the score hook (TraceV2 ScoreOK/Scored)",
             "text": "TLC proves the lemma exhaustively on small sequences; on real inputs every score() call is an event with the script and both token sequences, TLC checks validity, dist = Cost(script), the trimmed prefix/suffix, and that each reported match is backed by such a call with bit-equal confidence, span and lines.",
             "note": "go-diff is an environment whose output is checked per call; sampled inputs."},
-    "C03": {"technique": "recorded Match histories validated by TLC against V2Contract.WellFormed",
+    "C03": {"technique": "TLA+ specs V2Match (InBounds model check) and V2Tokenizer (TLC-enumerated inputs replayed into the real tokenizer: what a word is) + buffer-alignment sweep + recorded Match histories validated by TLC against V2Contract.WellFormed / RetainRet",
             "text": "Arbitrary byte inputs, texts edited at rates bracketing 1-threshold, concatenations and scenario files at 7 thresholds and corpora with odd names; TLC evaluates threshold <= confidence <= 1.0 (as ranks), corpus membership, line/token bounds and ordering on every return.",
             "note": "sampled inputs; thresholds below 0.5 on small corpora."},
-    "C04": {"technique": "recorded call histories of 5 classifiers x 3 processes validated by TLC (memo of results per input, PureMatch/PureGrow guards)",
+    "C04": {"technique": "TLA+ specs V2Match / V2Score / V2Runes replayed into the real stage, scoring and id-channel functions (a deterministic spec function is the reference: tie orders, map-ranging rules, id boundaries) + recorded call histories of 5 classifiers x 3 processes validated by TLC (memo of results per input, PureMatch/PureGrow guards incl. the caller's spare capacity)",
             "text": "The same inputs are matched on classifiers that differ in insertion order, unrelated extra documents, tracing and instance, with interleaved Match/MatchFrom/Normalize calls and in separate processes; TLC requires identical projected Results per input and unchanged documents, dictionary and caller bytes.",
             "note": "sampled inputs and histories; map seeds vary by process."},
     "C05": {"technique": _V2 + "; relational invariants Recase/Respace/Decorate/Typographic/BlankLine",
@@ -46,7 +46,7 @@ CHECKS.update({
     "C06": {"technique": _V2 + "; invariants NoticeIns/Marker, expected counter-examples MarkerParen/HyphenSplit replayed as probes",
             "text": "As C05 with chunk alphabets (copyright/date/marker chunks, spelling pairs, URL scheme); notice insertion, markers, hyphen split, spellings, http/https on real documents; three recorded findings are re-observed on every run.",
             "note": "open findings: notices inside a matched span, marker a), header-like word after a split word."},
-    "C07": {"technique": "recorded Match pairs (X alone, P.X.S) validated by TLC (V2Contract.Pair, kind shift); known clamp finding recognised by hook signature",
+    "C07": {"technique": "TLA+ spec V2Match at thresholds 0.5 and 0.8 model-checked and replayed stage by stage into the real functions + buffer-alignment sweep + recorded Match pairs (X alone, P.X.S) validated by TLC (V2Contract.Pair, kind shift); known clamp finding recognised by hook signature",
             "text": "Edited corpus texts, scenario files and concatenations alone and between out-of-vocabulary blocks; TLC requires the bag of matches to be equal after shifting token indices and lines.",
             "note": "sampled inputs."},
     "C08": {"technique": "TLA+ spec V2Buffer (byte buffer, carry-over, stale bytes) model-checked with non-vacuity configs + recorded MatchFrom/Match histories validated by TLC",
@@ -58,15 +58,15 @@ CHECKS.update({
     "C11": {"technique": _V2 + "; invariant Fixpoint (TokT(Normalize(in)) = TokT(in)) and byte-exact replay of Normalize",
             "text": "TLC checks the fixpoint on every small input, the real Normalize output is compared byte for byte with the spec's renderer on every enumerated input, and on real documents tokens of Normalize(in) vs in and Match results are validated as Pair events.",
             "note": "open findings: token ending in a hyphen at a line end; cleaned line that reads as a notice."},
-    "C12": {"technique": "TLA+ spec V2Load (intended semantics) enumerates trees x spellings; each materialised on disk and loaded by the real LoadLicenses; assets directory and DefaultClassifier compared by Match results",
-            "text": "All sets of <= 2 (3) files from 104 candidates (depth 1..5, four suffix kinds) x 5 spellings; corpus keys and Match equivalence with AddContent; LoadLicenses(assets) under 4 spellings and DefaultClassifier on all 431 documents + scenarios.",
+    "C12": {"technique": "TLA+ spec V2Load (intended semantics) enumerates trees x spellings x histories (fresh / keys registered before / reloaded after edits); each materialised on disk and loaded by the real LoadLicenses; assets directory and DefaultClassifier compared by Match results",
+            "text": "All sets of <= 2 (3) files from 104 candidates (depth 1..5, four suffix kinds) x 9 spellings with a fresh classifier, plus two histories; names with a leading dot; CRLF / BOM / invalid bytes in the files; corpus keys and Match equivalence with AddContent; LoadLicenses(assets) under 4 spellings and DefaultClassifier on all 431 documents + scenarios.",
             "note": "exhaustive within the candidate set."},
 })
 
 CHECKS.update({
     "C13": {"technique": "TLA+ generator/contract V1Classify + V1Contract: TLC-enumerated cases and seeded cases replayed into the real stringclassifier (crash-isolated, resumable), call/return events validated by TLC (TraceV1: ExactFound, ConfRange, InBounds, NearestSelf, NoPanic)",
             "text": "Every case of 1-2 known values over words / punctuation / metacharacters with copies in context (23 k quick, 71 k+ thorough) in three concretisations, plus seeded values up to 80 tokens over five vocabularies incl. invalid UTF-8; a process death is attributed to the journalled case.",
-            "note": "copies are token aligned; the fuzzy path (searchset heuristics) is checked against its contract only."},
+            "note": "token and character alphabets (the latter with blank-edged values, glued and abutting copies); the fuzzy path (searchset heuristics) is checked against its contract only."},
     "C14": {"technique": "TLA+ protocol spec V1Classifier (lazy search-set) model-checked incl. liveness + hook-event histories of concurrent calls validated by TLC with vector-clock happens-before (TraceConc) + results vs sequential results (TraceV1); Go race detector as second sensor",
             "text": "TLC explores all interleavings of 3 callers x 2 values of the repaired protocol (and refutes the check-outside-lock variant); on the real code every lock operation, access and fork is an event and TLC recomputes happens-before, rejecting the history at the first unordered conflicting access.",
             "note": "25 (150) rounds of 4 (8) callers; License with precomputed sets covered through results and the race detector."},
